@@ -8,7 +8,7 @@ BUDGET = {"quick": 120, "thorough": 5000}
 EXHAUSTIVE = True
 RULE = ("generated templates (text, expressions, helpers, blocks, indented partials whose indentation issues its own write "
         "calls, subexpressions, chained-else helpers that write themselves) and data; for each case the fault-free run through render_to_write / "
-        "render_template_to_write counts the writer calls n, then EVERY k in 0..n (capped at 200) is run with a writer "
+        "render_template_to_write and their _with_context twins counts the writer calls n, then EVERY k in 0..n (capped at 200) is run with a writer "
         "failing at call k: the result must be Err(IOError), nothing is written after the failure, the bytes accepted are "
         "a prefix of the fault-free output and equal to its first k segments; the model computes the same truncation; "
         "non-trivial = n ≥ 2; distinct by (case, k)")
@@ -44,7 +44,9 @@ def generate(rng, n, tier="quick"):
     for i in range(n):
         r = rng.fork(i)
         cfg, templates, data, named = base_case(r, i)
-        call = {"api": "render_to_write", "name": "main"} if named else {"api": "render_template_to_write", "src": templates[-1][1]}
+        # all four writer entry points
+        call = ({"api": r.pick(["render_to_write", "render_with_context_to_write"]), "name": "main"} if named
+                else {"api": r.pick(["render_template_to_write", "render_template_with_context_to_write"]), "src": templates[-1][1]})
         ops = [{"op": "reg_string", "reg": 0, "name": nm, "src": s} for nm, s in templates]
         d = enc(data)
         ops.append(dict(call, op="render", reg=0, data=d))             # fault-free
